@@ -6,6 +6,8 @@ import itertools
 
 from sa import pat, source
 from sa.cfg import cfg_of, guards, holds, negate
+from sa.minieval import CannotEval, Record, ev
+from sa.tables import Outcome
 from sa.source import AnchorMissing, arg_of, bind_args, dotted, is_self_attr, last_attr, local_defs, params_of, short, u, walk_body
 from sa.sym import comparison, NotRational, oriented, parse_expr, rat_equal, ratfun, UnknownAtom
 from sa.tables import decide, Unsupported
@@ -131,6 +133,366 @@ def partition_call_rule(chk, rid, drv):
     chk.ob(rid, "parameter source partitioned by (task-local client index, the task's own client count)", ok, pc_[0] if pc_ else sfn, got, key="esrally/driver/driver.py:schedule_for:partition")
 
 
+# ---- F40: the client's schedule is anchored at the end of its ramp-up wait ------------------------------------------------------------------------------
+_CLOCKS = ("time.perf_counter", "time.monotonic")
+_SLEEP = "asyncio.sleep"
+
+
+class _LoopReached(Exception):
+    pass
+
+
+class _Ended(Exception):
+    pass
+
+
+def _timeline(expr, now, wait):
+    """copy of `expr` in which a read of the monotonic clock is the virtual time `now` and the schedule handle's ramp-up wait is `wait` (nothing else is interpreted here)."""
+
+    class X(ast.NodeTransformer):
+        def visit_Call(self, n):
+            if dotted(n.func) in _CLOCKS and not n.args and not n.keywords:
+                return ast.Constant(value=now)
+            return self.generic_visit(n)
+
+        def visit_Attribute(self, n):
+            if n.attr == "ramp_up_wait_time":
+                return ast.Constant(value=wait)
+            return self.generic_visit(n)
+
+    try:
+        return X().visit(source.clone(expr))
+    except SyntaxError as e:  # an expression that does not re-parse on its own (e.g. a bare await): opaque
+        raise CannotEval(str(e))
+
+
+def _sleep_arg(node):
+    """the duration of `await asyncio.sleep(<duration>)`, else None."""
+    if isinstance(node, ast.Expr):
+        node = node.value
+    if isinstance(node, ast.Await) and isinstance(node.value, ast.Call) and dotted(node.value.func) == _SLEEP and node.value.args:
+        return node.value.args[0]
+    return None
+
+
+def _run_until_loop(stmts, loop, env, clk, wait):
+    """Local helper (sa/minieval.py evaluates expressions only): walks the straight-line / if / try / with statements that precede the request loop on a virtual time line.
+    A clock read yields clk[0]; `await asyncio.sleep(x)` advances it by x; every other statement takes no (modelled) time; a local whose value cannot be evaluated from
+    clock reads, the ramp-up wait and literals is unbound (using it later is CannotEval => the rule is inconclusive, never a verdict). Raises _LoopReached at `loop`."""
+    for s in stmts:
+        if s is loop:
+            raise _LoopReached()
+        if isinstance(s, ast.Assign):
+            try:
+                v, known = ev(_timeline(s.value, clk[0], wait), env), True
+            except CannotEval:
+                v, known = None, False
+            for t in s.targets:
+                if isinstance(t, ast.Name) and known:
+                    env[t.id] = v
+                else:
+                    for x in ast.walk(t):
+                        if isinstance(x, ast.Name) and isinstance(x.ctx, ast.Store):
+                            env.pop(x.id, None)
+        elif isinstance(s, ast.AugAssign):
+            if isinstance(s.target, ast.Name):
+                try:
+                    env[s.target.id] = ev(_timeline(ast.BinOp(left=ast.Name(id=s.target.id, ctx=ast.Load()), op=s.op, right=s.value), clk[0], wait), env)
+                except CannotEval:
+                    env.pop(s.target.id, None)
+        elif isinstance(s, ast.Expr):
+            d = _sleep_arg(s)
+            if d is not None:
+                dt = ev(_timeline(d, clk[0], wait), env)
+                if not isinstance(dt, (int, float)) or isinstance(dt, bool):
+                    raise CannotEval(f"sleep duration {u(d)}")
+                clk[0] += max(dt, 0)
+            # any other expression statement (logging, starting the progress timer) takes no modelled time
+        elif isinstance(s, ast.If):
+            _run_until_loop(s.body if ev(_timeline(s.test, clk[0], wait), env) else s.orelse, loop, env, clk, wait)
+        elif isinstance(s, ast.Try):
+            _run_until_loop(s.body, loop, env, clk, wait)
+            _run_until_loop(s.orelse, loop, env, clk, wait)
+            _run_until_loop(s.finalbody, loop, env, clk, wait)
+        elif isinstance(s, (ast.With, ast.AsyncWith)):
+            _run_until_loop(s.body, loop, env, clk, wait)
+        elif isinstance(s, (ast.Return, ast.Raise)):
+            raise _Ended()
+        elif isinstance(s, (ast.Pass, ast.Import, ast.ImportFrom, ast.FunctionDef, ast.AsyncFunctionDef, ast.ClassDef, ast.Global, ast.Nonlocal, ast.Assert)):
+            pass
+        else:
+            raise CannotEval(f"statement kind {type(s).__name__} before the request loop (line {getattr(s, 'lineno', '?')})")
+
+
+def schedule_anchor_rule(chk, rid, ex, loop):
+    """Pacing under ramp-up (F40): the absolute time a request is due is <anchor> + <scheduled offset>, and the executor sleeps until then. The anchor must be the moment the client
+    starts issuing requests, i.e. the end of its ramp-up wait: anchored before the wait, every request whose offset is smaller than the wait is already overdue when the client
+    wakes up and is issued back-to-back (not weight*C/T apart). Decided on values: the statements before the request loop are walked on a virtual time line (start at t0, the
+    ramp-up sleep advances it by the wait W) for W = 0 and W > 0; then the EXTRACTED sleep-until duration of the loop body is evaluated for a first request at offset d.
+    It must be d whatever W is (pre-repair: d - W). Roles: offset = first element of the loop's target tuple (position 0 of the generator's yield, O5.3); the sleep-until =
+    the `await asyncio.sleep(..)` in the loop whose duration depends on the offset; clock = time.perf_counter()/monotonic(); wait = <schedule handle>.ramp_up_wait_time."""
+    tgt = loop.target
+    first = tgt.elts[0] if isinstance(tgt, ast.Tuple) and tgt.elts else tgt
+    if not isinstance(first, ast.Name):
+        raise AnchorMissing("scheduled offset: first target of the request loop in AsyncExecutor.__call__")
+    offset = first.id
+    ldefs = {k: v for k, v in local_defs(ex).items() if any(a is loop for a in source.ancestors(v))}
+    until = []
+    for n in ast.walk(loop):
+        d = _sleep_arg(n) if isinstance(n, ast.Await) else None
+        if d is not None:
+            inl = source.inline_node(d, ldefs)
+            if any(isinstance(x, ast.Name) and x.id == offset for x in ast.walk(inl)):
+                until.append((n, inl))
+    if not until:
+        raise AnchorMissing("sleep-until on the scheduled offset in the request loop of AsyncExecutor.__call__")
+    T0, D = 100.0, 0.5
+    for wait in (0, 4.0):
+        env, clk = {}, [T0]
+        try:
+            try:
+                _run_until_loop(ex.body, loop, env, clk, wait)
+                raise AnchorMissing(f"the request loop of AsyncExecutor.__call__ is not reached with ramp-up wait {wait}")
+            except _LoopReached:
+                pass
+            except _Ended:
+                raise AnchorMissing(f"AsyncExecutor.__call__ ends before its request loop with ramp-up wait {wait}")
+            env[offset] = D
+            rests = [(n, ev(_timeline(inl, clk[0], wait), env)) for n, inl in until]
+        except CannotEval as e:
+            chk.unknown(rid, f"schedule anchor not evaluable on the virtual time line (ramp-up wait {wait}): {e}", until[0][0])
+            continue
+        waited = clk[0] - T0
+        bad = [(n, r) for n, r in rests if not isinstance(r, (int, float)) or abs(r - D) > 1e-9]
+        chk.ob(rid, f"ramp-up wait {wait:g}s: a request scheduled at offset d is due d after the client's start (the end of its ramp-up wait), i.e. the schedule is anchored after the wait",
+               not bad and abs(waited - wait) < 1e-9, (bad[0][0] if bad else until[0][0]),
+               f"virtual time line: start {T0:g}, ramp-up sleep {waited:g}s, request loop entered at {clk[0]:g}; first request at offset {D:g} is due in "
+               f"{', '.join(f'{r:g}' if isinstance(r, (int, float)) else repr(r) for _, r in rests)}s (expected {D:g}s)"
+               + ("" if not bad else f": the schedule is anchored {D - bad[0][1]:g}s before the client starts, so every request with an offset below that is overdue and issued back-to-back"
+                  if isinstance(bad[0][1], (int, float)) else ""),
+               key=f"{_D}:AsyncExecutor.__call__:schedule-anchor-after-ramp-up-wait:wait={wait:g}")
+
+
+# ---- F48: a task that reaches the loop-control choice carries fields of ONE kind ---------------------------------------------------------------------------
+_MIX_FIELDS = (("warmup_iterations", "warmup-iterations", 5), ("iterations", "iterations", 5), ("warmup_time_period", "warmup-time-period", 10), ("time_period", "time-period", 10))
+
+
+def iteration_time_mix_rule(chk, rid, repo):
+    """requires_time_period_schedule() lets any time-period field win over the iteration fields (O5.5 table), so `exactly warmup-iterations + iterations requests` holds for a
+    task only if no task carrying an iteration field AND a time-period field ever reaches the driver: the loader has to reject it (its own message: 'mixing time periods and
+    iterations is not allowed'). Decided on values: the 16 set/unset combinations of the four fields (ramp-up unset) are fed, as a record standing for the constructed Task, through
+    the validation statements that follow the Task construction in TrackSpecificationReader.parse_task (tables.decide over the EXTRACTED tests; a call of self._error / a raise is
+    the rejection). Every mixed row must be rejected, every unmixed row accepted. Roles: the task = the local bound to the `Task(...)` construction; fields = the Task attributes
+    that requires_time_period_schedule() reads. Where a field value comes from (the task itself or the default inherited from the parallel element) does not matter here."""
+    ldr = repo.module("esrally/track/loader.py")
+    chk.use(ldr)
+    pt = ldr.methods(ldr.cls("TrackSpecificationReader")).get("parse_task")
+    if pt is None:
+        raise AnchorMissing("TrackSpecificationReader.parse_task")
+    ctor = [c for c in source.calls_in(pt) if last_attr(c.func) == "Task" and {k.arg for k in c.keywords} >= {f for f, _, _ in _MIX_FIELDS}]
+    tstmt = source.enclosing_stmt(ctor[0]) if len(ctor) == 1 else None
+    if not (isinstance(tstmt, ast.Assign) and len(tstmt.targets) == 1 and isinstance(tstmt.targets[0], ast.Name) and tstmt.value is ctor[0]):
+        raise AnchorMissing("`<local> = track.Task(warmup_iterations=..., iterations=..., warmup_time_period=..., time_period=...)` in parse_task")
+    task_local = tstmt.targets[0].id
+    par = source.parent(tstmt)
+    own = next((b for f_ in ("body", "orelse", "finalbody") for b in [getattr(par, f_, None)] if isinstance(b, list) and any(x is tstmt for x in b)), None)
+    if own is None:
+        raise AnchorMissing("the block of parse_task that constructs the Task")
+    block = own[[i for i, x in enumerate(own) if x is tstmt][0] + 1:]
+
+    def on_stmt(s, e_, b):
+        if isinstance(s, ast.Expr) and isinstance(s.value, ast.Call) and is_self_attr(s.value.func, "_error"):
+            return Outcome("raise", s.value, [], s)
+        return None
+
+    n_rows = 0
+    for vals in itertools.product([False, True], repeat=4):
+        fields = {f: (v if given else None) for (f, _, v), given in zip(_MIX_FIELDS, vals)}
+        rec = Record(ramp_up_time_period=None, **fields)
+
+        def atom(n, e_, rec=rec):
+            try:
+                return bool(ev(n, {task_local: rec}))
+            except CannotEval:
+                return None
+
+        names = [k for (_, k, _), given in zip(_MIX_FIELDS, vals) if given]
+        row = "+".join(names) or "none"
+        try:
+            out = decide(block, atom, {}, on_stmt=on_stmt)
+        except (Unsupported, UnknownAtom) as e:
+            chk.unknown(rid, f"validation statements of parse_task are not a decision over the four iteration / time-period fields (row {row}): {e}", pt)
+            continue
+        n_rows += 1
+        rejected = out.kind == "raise"
+        wi, it, wt, tp = vals
+        mixed = (wi or it) and (wt or tp)
+        detail = f"the loader {'rejects' if rejected else 'accepts'} the task"
+        if mixed and not rejected:
+            detail += (f": it reaches the driver with both kinds of fields, requires_time_period_schedule() picks the time-based control and the "
+                       f"{' + '.join(n for n in names if 'iterations' in n)} written in the track are ignored"
+                       + (" (warm-up period without a period: the control is infinite, a task with a constant parameter source never ends)" if not tp else ""))
+        chk.ob(rid, f"task with {', '.join(names) or 'no iteration / time-period field'}: {'rejected by the loader (iterations mixed with time periods)' if mixed else 'accepted'}",
+               rejected == mixed, (out.node if rejected and out.node is not None else pt), detail,
+               key=f"esrally/track/loader.py:TrackSpecificationReader.parse_task:mix:[{row}]")
+    chk.ob(rid, "iteration / time-period mixing table: all 16 rows evaluated", n_rows == 16, pt, f"{n_rows} of 16 rows")
+
+
+# ---- F47: the progress Rally reports for a step is monotone by construction ----------------------------------------------------------------------------------
+_NOVAL = object()
+_PURE_BUILTINS = {"len", "max", "min", "sum", "round", "float", "int", "abs", "list", "tuple", "set", "sorted", "bool", "any", "all"}
+
+
+def _evx(expr, env):
+    """Local extension of sa/minieval.ev (which lacks them): multi-argument max()/min() and the dict views .values()/.keys()/.items() are evaluated first, bottom-up, and replaced
+    by temporaries bound in the environment; everything else is minieval. A view / max that depends on a comprehension variable stays CannotEval."""
+    env = dict(env)
+    k = [0]
+
+    class X(ast.NodeTransformer):
+        def visit_Call(self, n):
+            n = self.generic_visit(n)
+            val = _NOVAL
+            d = dotted(n.func)
+            if d in ("max", "min") and len(n.args) >= 2 and not n.keywords and not any(isinstance(a, ast.Starred) for a in n.args):
+                try:
+                    val = (max if d == "max" else min)(*[ev(a, env) for a in n.args])
+                except TypeError as e:
+                    raise CannotEval(f"{u(n)[:60]}: {e}")
+            elif isinstance(n.func, ast.Attribute) and n.func.attr in ("values", "keys", "items") and not n.args and not n.keywords:
+                recv = ev(n.func.value, env)
+                if not isinstance(recv, dict):
+                    raise CannotEval(f"{u(n)[:60]}: receiver is not a table")
+                val = [list(x) if isinstance(x, tuple) and n.func.attr == "items" else x for x in getattr(recv, n.func.attr)()]
+            if val is _NOVAL:
+                return n
+            k[0] += 1
+            env[f"_t{k[0]}"] = val
+            return ast.Name(id=f"_t{k[0]}", ctx=ast.Load())
+
+    return ev(X().visit(source.clone(expr)), env)
+
+
+def progress_aggregate_rule(chk, rid, drv):
+    """`reported progress never decreases`: what Rally prints for a running step is an aggregate over a per-step table of the most recent sample of each client. Two necessary
+    conditions of monotonicity (each also met by a per-step high-water mark `shown = max(shown, value)`):
+      (key)  a client that runs two tasks of a parallel element in turn must not overwrite its finished task's 100% with the next task's first sample: the table key separates
+             (client, task). Decided on values: the EXTRACTED key expression of the store in update_samples is evaluated on sample records.
+      (mean) the divisor must not be the number of clients that have reported SO FAR: a slower client's first report then lowers the mean. Decided on values when the EXTRACTED
+             aggregate is a function of the table alone (history: client 0 reports 60%, then client 1 reports 20%); an aggregate that also reads other driver state (the
+             allocations of the step, a high-water mark) is accepted, not evaluated (necessary, not sufficient).
+    Roles: table = the self attribute subscripted-and-stored with the loop variable in `for s in <batch parameter>` of update_samples; aggregate = the table-dependent value that
+    flows into the progress reporter's print call in update_progress_message."""
+    DR = drv.cls("Driver")
+    us, up = _prop(drv, DR, "update_samples"), _prop(drv, DR, "update_progress_message")
+    batch = _param(us, 1)
+    stores = []
+    for loop in [n for n in walk_body(us) if isinstance(n, ast.For) and isinstance(n.iter, ast.Name) and n.iter.id == batch and isinstance(n.target, ast.Name)]:
+        for n in ast.walk(loop):
+            if isinstance(n, ast.Assign) and len(n.targets) == 1 and isinstance(n.targets[0], ast.Subscript) and is_self_attr(n.targets[0].value) \
+                    and isinstance(n.value, ast.Name) and n.value.id == loop.target.id:
+                stores.append((n, loop.target.id, n.targets[0].value.attr, n.targets[0].slice))
+    if len(stores) != 1:
+        raise AnchorMissing(f"`for s in {batch}: self.<table>[<key of s>] = s` in Driver.update_samples ({len(stores)} found)")
+    store, svar, T, kexpr = stores[0]
+    udefs = {k: v for k, v in local_defs(us).items() if k != svar}
+    kexpr = source.inline_node(kexpr, udefs)
+
+    def mentions_table(e):
+        return any(is_self_attr(x, T) for x in ast.walk(e))
+
+    # the aggregate: table-dependent value(s) reaching the reporter's print call
+    prints = [c for c in walk_body(up) if isinstance(c, ast.Call) and isinstance(c.func, ast.Attribute) and c.func.attr == "print" and is_self_attr(c.func.value)]
+    if not prints:
+        raise AnchorMissing("self.<progress reporter>.print(...) in Driver.update_progress_message")
+    pdefs = local_defs(up)
+    aggs = []
+    for c in prints:
+        for a in list(c.args) + [k_.value for k_ in c.keywords]:
+            inl = source.inline_node(a, pdefs)
+            if mentions_table(inl):
+                aggs.append((source.enclosing_stmt(c), inl))
+            for nm in {x.id for x in ast.walk(inl) if isinstance(x, ast.Name) and isinstance(x.ctx, ast.Load)}:
+                for st in walk_body(up):
+                    if isinstance(st, ast.Assign) and any(isinstance(t, ast.Name) and t.id == nm for t in st.targets):
+                        v = source.inline_node(st.value, pdefs)
+                        if mentions_table(v) and not any(st is s_ for s_, _ in aggs):
+                            aggs.append((st, v))
+    if not aggs:
+        raise AnchorMissing(f"a value derived from self.{T} that reaches the progress reporter in Driver.update_progress_message")
+    # per-step high-water mark: max(..., self.<attr>, ...) with that attribute stored in the same method
+    stored = {t.attr for st in walk_body(up) if isinstance(st, (ast.Assign, ast.AugAssign)) for t in (st.targets if isinstance(st, ast.Assign) else [st.target]) if is_self_attr(t)}
+    hw = sorted({a.attr for c in walk_body(up) if isinstance(c, ast.Call) and dotted(c.func) == "max" for a in c.args if is_self_attr(a) and a.attr != T and a.attr in stored})
+
+    class _Task(Record):  # a task record that prints readably in the obligation details (identity-compared like the real Task objects of two tasks)
+        def __repr__(self):
+            return f"<task {self.fields['name']}>"
+
+    TA, TB = _Task(name="a"), _Task(name="b")
+
+    def sample(client, task, progress):
+        return Record(client_id=client, task=task, percent_completed=progress)
+
+    def key_of(s):
+        return ev(kexpr, {svar: s})
+
+    def replay(history):
+        """the reported values after each batch of `history`: the table is filled through the extracted key, the extracted aggregate(s) evaluated on it."""
+        table, out = {}, []
+        for s in history:
+            table[key_of(s)] = s
+            vals = [_evx(a, {"self": Record(**{T: dict(table)})}) for _, a in aggs]
+            out.append(vals[0] if len(vals) == 1 else tuple(vals))
+        return out
+
+    def pct(vs):
+        return " -> ".join(f"{round(v * 100)}%" if isinstance(v, (int, float)) else str(v) for v in vs)
+
+    # (key)
+    try:
+        k_a, k_a2, k_b, k_c1 = key_of(sample(0, TA, 0.25)), key_of(sample(0, TA, 1.0)), key_of(sample(0, TB, 0.25)), key_of(sample(1, TA, 0.25))
+        for k_ in (k_a, k_a2, k_b, k_c1):
+            hash(k_)
+    except (CannotEval, TypeError) as e:
+        chk.unknown(rid, f"key of the progress table `{u(kexpr)}` is not evaluable on a sample record (client_id, task, percent_completed): {e}", store)
+        return
+    try:
+        wit = "; one client running task a, then task b of the same step is reported as " + pct(replay([sample(0, TA, 0.25), sample(0, TA, 1.0), sample(0, TB, 0.25)]))
+    except (CannotEval, TypeError, ZeroDivisionError):
+        wit = ""
+    chk.ob(rid, "progress table: the samples of one client for two tasks of the step occupy two entries (or the reported value is a per-step high-water mark)", k_a != k_b or bool(hw), store,
+           f"self.{T}[{u(kexpr)}] = {svar}: keys {k_a!r} / {k_b!r} for (client 0, task a) / (client 0, task b)" + (f"; high-water mark self.{hw[0]}" if hw else "") + (wit if k_a == k_b and not hw else ""),
+           key=f"{_D}:Driver.update_samples:progress-table-key:client-with-two-tasks")
+    chk.ob(rid, "progress table: two clients occupy two entries", k_a != k_c1, store, f"keys {k_a!r} / {k_c1!r} for (client 0, task a) / (client 1, task a)",
+           key=f"{_D}:Driver.update_samples:progress-table-key:two-clients")
+    chk.ob(rid, "progress table: a newer sample of the same client and task replaces the older one", k_a == k_a2, store, f"keys {k_a!r} / {k_a2!r} for two samples of (client 0, task a)",
+           key=f"{_D}:Driver.update_samples:progress-table-key:same-client-and-task")
+    # (mean)
+    resets = [st for m in drv.methods(DR).values() for st in walk_body(m) if isinstance(st, ast.Assign) and any(is_self_attr(t, T) for t in st.targets)]
+    empty = [st for st in resets if (isinstance(st.value, ast.Dict) and not st.value.keys) or (isinstance(st.value, ast.Call) and dotted(st.value.func) == "dict" and not st.value.args and not st.value.keywords)]
+    if not resets or len(empty) != len(resets):
+        chk.unknown(rid, f"self.{T} is not (only) reset to an empty table: entries may exist before a client reports, the mean is not decided here", resets[0] if resets else DR)
+        return
+    site = aggs[0][0]
+    other = sorted({x.attr for _, a in aggs for x in ast.walk(a) if is_self_attr(x) and x.attr != T}
+                   | {u(x.func) for _, a in aggs for x in ast.walk(a) if isinstance(x, ast.Call) and dotted(x.func) not in _PURE_BUILTINS
+                      and not (isinstance(x.func, ast.Attribute) and x.func.attr in ("values", "keys", "items", "get"))})
+    text = "; ".join(short(a, 150) for _, a in aggs)
+    try:
+        seq = replay([sample(0, TA, 0.6), sample(1, TA, 0.2)])
+        ok = all(isinstance(v, (int, float)) for v in seq) and seq[1] >= seq[0] - 1e-12
+        detail = f"`{text}` is a function of self.{T} alone (reset to an empty table for every step): client 0 reports 60%, then client 1 reports its first sample at 20% => {pct(seq)}" \
+            + ("" if ok else (f" before the high-water mark self.{hw[0]} is applied" if hw else ": the mean is taken over the clients that have reported so far"))
+    except (CannotEval, TypeError, ZeroDivisionError) as e:
+        if not other and not hw:
+            chk.unknown(rid, f"reported progress `{text}` is neither evaluable on a table of sample records nor dependent on other driver state: {e}", site)
+            return
+        ok = True
+        detail = f"`{text}` also reads {', '.join(('self.' + o) if '.' not in o else o for o in other) or 'self.' + hw[0]}: not a function of the reports received so far alone (not evaluated)"
+    chk.ob(rid, "reported progress of a step does not drop when a further client reports for the first time (mean over all clients / allocations of the step, or a per-step high-water mark)",
+           ok or bool(hw), site, detail, key=f"{_D}:Driver.update_progress_message:progress-mean-divisor")
+
+
 def run(chk):
     repo = chk.repo
     drv, sch = repo.module(_D), repo.module(_S)
@@ -139,7 +501,9 @@ def run(chk):
         "Decides the loop-control and pacing skeleton: the iteration counter idiom with comparator strictness (>= W+I, < W, (it+1)/(W+I)); time-period guards by direction; "
         "the schedule generator yields, then advances the progress control exactly once, threading the scheduled time; loop-control choice as a decision table; "
         "field flow of warm-up/iteration/time fields into the loop controls; pacing formulas (1/theta, expovariate(theta), 0, theta = T/clients/weight) and the unit rule; "
-        "ramp-up formula and placement (progress timer started before the ramp-up wait, wait before the main loop)."
+        "ramp-up formula and placement (progress timer started before the ramp-up wait, wait before the main loop, request schedule anchored at the end of the wait: "
+        "sleep-until duration evaluated on a virtual time line); the loader's iteration / time-period mixing table (16 rows: no task with both kinds of fields reaches the "
+        "loop-control choice); the progress aggregate printed for a step (table key and mean evaluated on sample records)."
     )
     chk.not_decided = "the boundary request of time-based tasks, Poisson statistics, plugin schedulers, float rounding of progress."
     IB = drv.cls("IterationBased")
@@ -374,7 +738,7 @@ def run(chk):
     # ---- O5.4 pacing ----------------------------------------------------------------------------------------------------------------------------
     chk.rule("O5.4", "pacing: deterministic next == current + 1/theta; Poisson current + expovariate(theta); unthrottled 0; unit-aware theta == T / clients / weight "
              "(so consecutive requests are weight*C/T apart); ops/s target with another reported unit => weight 1 on every call; ramp-up == ramp * (i / total), "
-             "progress timer started before the ramp-up wait, wait before the main loop", 9,
+             "progress timer started before the ramp-up wait, wait before the main loop, the request schedule anchored at the END of the wait", 9,
              "throttled tasks run at another rate than specified; clients start before/after their ramp-up slot; warm-up window shifted by the ramp-up delay")
     DS = sch.cls("DeterministicScheduler")
     di = _prop(sch, DS, "__init__")
@@ -684,6 +1048,13 @@ def run(chk):
 
     complete_read_exemption_rule(chk, "O5.5", drv)
     parallel_defaults_rule(chk, "O5.5", repo)
+    # ---- obligations added after the defect hunt (kept last: an anchor they cannot find must not hide the verdicts above) ----------------------------------
+    schedule_anchor_rule(chk, "O5.4", ex, loops_[0])  # F40
+    iteration_time_mix_rule(chk, "O5.5", repo)  # F48
+    chk.rule("O5.7", "the progress reported for a running step is monotone by construction: the per-step table of most recent samples is keyed by (client, task), and the mean "
+             "over it is not taken over the clients that have reported so far only (or the reported value is a per-step high-water mark)", 4,
+             "reported progress decreases: a client that runs two tasks of a parallel element in turn (100% -> 25%), or a slower client whose first samples arrive later (60% -> 40%)")
+    progress_aggregate_rule(chk, "O5.7", drv)  # F47
 
 
 from sa.selftest import V  # noqa: E402
@@ -706,6 +1077,11 @@ VARIANTS = [
     V("ramp-up by task clients", "break", _D, "            return ramp_up_time_period * (self.task_allocation.global_client_index / self.task_allocation.total_clients)", "            return ramp_up_time_period * (self.task_allocation.client_index_in_task / self.task_allocation.total_clients)", "O5.4"),
     V("seed m3: timer started after the ramp-up wait", "break", _D, "        self.schedule_handle.start()\n        rampup_wait_time = self.schedule_handle.ramp_up_wait_time\n        if rampup_wait_time:\n            self.logger.debug(\"client id [%s] waiting [%.2f]s for ramp-up.\", self.client_id, rampup_wait_time)\n            await asyncio.sleep(rampup_wait_time)\n",
       "        rampup_wait_time = self.schedule_handle.ramp_up_wait_time\n        if rampup_wait_time:\n            self.logger.debug(\"client id [%s] waiting [%.2f]s for ramp-up.\", self.client_id, rampup_wait_time)\n            await asyncio.sleep(rampup_wait_time)\n        self.schedule_handle.start()\n", "O5.4"),
+    V("F40 reverted: schedule anchored before the ramp-up wait", "break", _D, "                absolute_expected_schedule_time = schedule_start + expected_scheduled_time", "                absolute_expected_schedule_time = total_start + expected_scheduled_time", "O5.4"),
+    V("F40 equivalent break: anchor is the pre-wait clock on both arms", "break", _D, "        schedule_start = time.perf_counter() if rampup_wait_time else total_start\n", "        schedule_start = total_start if rampup_wait_time else total_start\n", "O5.4"),
+    V("loader accepts the crossed mix warmup-iterations + time-period", "break", "esrally/track/loader.py", "        if task.warmup_iterations is not None and task.time_period is not None:", "        if False:", "O5.5"),
+    V("loader rejects a pure iteration task", "break", "esrally/track/loader.py", "        elif task.warmup_time_period is not None and task.iterations is not None:", "        elif task.warmup_iterations is not None and task.iterations is not None:", "O5.5"),
+    V("progress table keyed by the task only", "break", _D, "                self.most_recent_sample_per_client[s.client_id] = s", "                self.most_recent_sample_per_client[s.task] = s", "O5.7"),
     V("seed m1: runner completion beats explicit iterations", "break", _D, "    if task.warmup_time_period is not None or task.time_period is not None:\n        return True", "    if task.warmup_time_period is not None or task.time_period is not None or task_runner.completed is not None:\n        return True", "O5.5"),
     V("iterations passed as warm-up", "break", _D, "        loop_control = IterationBased(warmup_iterations, iterations)", "        loop_control = IterationBased(iterations, warmup_iterations)", "O5.5"),
     V("warm-up period from time_period", "break", _D, "        warmup_time_period = task.warmup_time_period if task.warmup_time_period else 0", "        warmup_time_period = task.time_period if task.warmup_time_period else 0", "O5.5"),
@@ -717,6 +1093,19 @@ VARIANTS = [
     V("W > it", "keep", _D, "        return metrics.SampleType.Warmup if self._it < self._warmup_iterations else metrics.SampleType.Normal", "        return metrics.SampleType.Warmup if self._warmup_iterations > self._it else metrics.SampleType.Normal"),
     V("theta written directly", "keep", _S, "            target_throughput = self.task.target_throughput.value / self.task.clients / self.current_weight", "            target_throughput = self.task.target_throughput.value / (self.task.clients * self.current_weight)"),
     V("strict time completion", "keep", _D, "        return self._now >= (self._start + self._duration)", "        return self._now > (self._start + self._duration)"),
+    V("F40 respelled: anchor chosen by an if/else statement", "keep", _D, "        schedule_start = time.perf_counter() if rampup_wait_time else total_start\n",
+      "        if rampup_wait_time:\n            schedule_start = time.perf_counter()\n        else:\n            schedule_start = total_start\n"),
+    V("F40 respelled: anchor read inside the ramp-up branch after the sleep, else the start time", "keep", _D,
+      "            await asyncio.sleep(rampup_wait_time)\n        # the client's schedule starts when the client starts, i.e. after any ramp-up wait\n        schedule_start = time.perf_counter() if rampup_wait_time else total_start\n",
+      "            await asyncio.sleep(rampup_wait_time)\n            schedule_start = time.perf_counter()\n        else:\n            schedule_start = total_start\n"),
+    [V("F40 respelled: anchor preset to the start time, re-read after the sleep", "keep", _D, "        rampup_wait_time = self.schedule_handle.ramp_up_wait_time\n",
+       "        rampup_wait_time = self.schedule_handle.ramp_up_wait_time\n        schedule_start = total_start\n"),
+     V("", "keep", _D, "            await asyncio.sleep(rampup_wait_time)\n        # the client's schedule starts when the client starts, i.e. after any ramp-up wait\n        schedule_start = time.perf_counter() if rampup_wait_time else total_start\n",
+       "            await asyncio.sleep(rampup_wait_time)\n            schedule_start = time.perf_counter()\n")],
+    V("F40 respelled: anchor folded into the due time", "keep", _D, "                absolute_expected_schedule_time = schedule_start + expected_scheduled_time", "                absolute_expected_schedule_time = expected_scheduled_time + schedule_start"),
+    V("mixing rule: operands swapped, chain as two ifs", "keep", "esrally/track/loader.py", "        elif task.warmup_time_period is not None and task.iterations is not None:", "        if task.iterations is not None and task.warmup_time_period is not None:"),
+    V("progress mean: divisor respelled (same known finding, same key)", "keep", _D, "                num_clients = max(len(progress_per_client), 1)", "                num_clients = len(progress_per_client) or 1"),
+    V("progress table: key through a local (same known finding, same key)", "keep", _D, "                self.most_recent_sample_per_client[s.client_id] = s", "                reporter = s.client_id\n                self.most_recent_sample_per_client[reporter] = s"),
     V("decision function as nested ifs", "keep", _D, "    # user has explicitly requested iterations\n    if task.warmup_iterations is not None or task.iterations is not None:\n        return False",
       "    # user has explicitly requested iterations\n    if task.warmup_iterations is not None:\n        return False\n    if task.iterations is not None:\n        return False"),
 ]
